@@ -193,21 +193,34 @@ def generate():
                 class QCfg(PCfg):
                     def suggested_fixed(self): return [False, False, False]
                 class QPdf: config = QCfg()
+                class RCfg(PCfg):                                      # a model suggesting the opposite of what the caller passes
+                    def suggested_fixed(self): return [not f for f in fixed]
+                class RPdf: config = RCfg()
                 # the check called directly / `hypotest` with the flags coming from the model's suggestion / `hypotest` with the flags passed
                 # by the caller (the model suggesting none)
-                for mode in ('direct', 'suggested', 'caller'):
+                for mode in ('direct', 'suggested', 'caller', 'override'):
                     try:
                         if mode == 'direct': ocheck(PPdf(), [1.0], [1.0] * 3, [(0.0, 10.0)] * 3, fixed)
                         else:
                             infmod.utils.create_calculator = lambda *a, **k: FakeCalc()
                             try:
                                 if mode == 'suggested': infmod.hypotest(1.0, [1.0], PPdf())
-                                else: infmod.hypotest(1.0, [1.0], QPdf(), fixed_params=fixed)
+                                elif mode == 'caller': infmod.hypotest(1.0, [1.0], QPdf(), fixed_params=fixed)
+                                else:
+                                    # the caller's starting point, bounds and flags are used as given — also where they are all zero / all
+                                    # False — and reach the calculator verbatim
+                                    seen_args = []
+                                    infmod.utils.create_calculator = lambda *a, **k: (seen_args.append(a), FakeCalc())[1]
+                                    c_init, c_bounds = [0.0, 0.0, 0.0], [(0.0, 5.0)] * 3
+                                    try: infmod.hypotest(1.0, [1.0], RPdf(), init_pars=c_init, par_bounds=c_bounds, fixed_params=fixed)
+                                    finally:
+                                        if seen_args and (list(seen_args[0][3]) != c_init or list(seen_args[0][4]) != c_bounds or list(seen_args[0][5]) != fixed):
+                                            raise RuntimeError(f'hypotest does not hand the caller\'s init_pars / par_bounds / fixed_params to the calculator as given: {seen_args[0][3:6]} for {c_init, c_bounds, fixed}')
                             finally: infmod.utils.create_calculator = ocreate
                         outs.append('ok')
                     except Exception as e:  # noqa
                         outs.append(type(e).__name__)
-                if not (outs[0] == outs[1] == outs[2]):
+                if not (outs[0] == outs[1] == outs[2] == outs[3]):
                     raise RuntimeError(f'hypotest prerequisites differ between the direct check, suggested flags and caller flags: poi={poi} fixed={fixed} -> {outs}')
                 prereq_rows.append((poi, fixed, outs[0]))
         B = lambda b: 'true' if b else 'false'
